@@ -586,7 +586,8 @@ Record gresult := {
 }.
 
 Inductive result := RFun (e : evaluation) | RGrad (g : gresult).
-Inductive request := ReqF (k : nat) | ReqG (k : nat) | ReqFG (k : nat).
+(* function request, gradient request, both, and a function request for a BATCH of vectors (a matrix) *)
+Inductive request := ReqF (k : nat) | ReqG (k : nat) | ReqFG (k : nat) | ReqB (ks : list nat).
 
 Record senv := {
   s_cfg : config;
@@ -598,7 +599,12 @@ Record senv := {
   s_points : list point
 }.
 
-Definition req_point (rq : request) : nat := match rq with ReqF k | ReqG k | ReqFG k => k end.
+Definition req_points (rq : request) : list nat :=
+  match rq with ReqF k | ReqG k | ReqFG k => [k] | ReqB ks => ks end.
+Definition req_point (rq : request) : nat := hd 0%nat (req_points rq).
+(* the point result number i of the answer to rq is about *)
+Definition result_point (rq : request) (i : nat) : nat :=
+  match rq with ReqF k | ReqG k | ReqFG k => k | ReqB ks => nth i ks 0%nat end.
 
 (* _get_failed_realizations with perturbations: failed |= #successful perturbations < perturbation_min_success *)
 Definition grad_failed (pmin : nat) (failed : list bool) (pfail : list (list bool)) : list bool :=
@@ -639,6 +645,23 @@ Definition calc_both (env : senv) (k : nat) : cache * outcome (list result) :=
   | Raise s => (None, Raise s)
   end.
 
+(* _calculate_functions on a matrix: the vectors are processed one after the other, the first abort ends the call *)
+Fixpoint eval_batch (env : senv) (ks : list nat) : outcome (list evaluation) :=
+  match ks with
+  | [] => Ok []
+  | k :: rest =>
+      match eval_point env k with
+      | Ok (_, e) =>
+          match eval_batch env rest with
+          | Ok es => Ok (e :: es)
+          | Abort c => Abort c
+          | Raise s => Raise s
+          end
+      | Abort c => Abort c
+      | Raise s => Raise s
+      end
+  end.
+
 (* one call of calculate *)
 Definition calc (env : senv) (ch : cache) (rq : request) : cache * outcome (list result) :=
   match rq with
@@ -660,6 +683,12 @@ Definition calc (env : senv) (ch : cache) (rq : request) : cache * outcome (list
       | None => calc_both env k
       end
   | ReqFG k => calc_both env k
+  | ReqB ks =>
+      match eval_batch env ks with
+      | Ok es => (match es with e :: _ => Some (hd 0%nat ks, e) | [] => ch end, Ok (map RFun es))   (* function_results[0] is cached *)
+      | Abort c => (ch, Abort c)
+      | Raise s => (ch, Raise s)
+      end
   end.
 
 (* the caller keeps calling after an exception (direct use of the evaluator object) *)
@@ -697,10 +726,12 @@ Fixpoint run_step (env : senv) (allow_nan : bool) (ch : cache) (reqs : list requ
       end
   end.
 
-(* an evaluator step: one function request *)
-Definition run_evalstep (env : senv) (k : nat) : list (list result) * outcome Z :=
-  match eval_point env k with
-  | Ok (_, e) => ([[RFun e]], Ok (if is_none (e_functions e) then too_few else evaluation_finished))
+(* an evaluator step: one function request (a vector or a batch); every result is checked for missing values *)
+Definition lacks_functions (r : result) : bool :=
+  match r with RFun e => is_none (e_functions e) | RGrad _ => false end.
+Definition run_evalstep (env : senv) (rq : request) : list (list result) * outcome Z :=
+  match snd (calc env None rq) with
+  | Ok rs => ([rs], Ok (if existsb lacks_functions rs then too_few else evaluation_finished))
   | Abort c => ([], Ok c)
   | Raise s => ([], Raise s)
   end.
@@ -725,6 +756,20 @@ Definition fresh_function (env : senv) (k : nat) : outcome evaluation :=
 Definition cache_ok (env : senv) (ch : cache) : Prop :=
   match ch with Some (k, e) => fresh_function env k = Ok e | None => True end.
 
+
+(* result number i of an answer is the result of a fresh evaluation of the point it is about *)
+Definition result_fresh (env : senv) (rq : request) (i : nat) (r : result) : Prop :=
+  match r with
+  | RFun e => fresh_function env (result_point rq i) = Ok e
+  | RGrad g => fresh_gradient env (result_point rq i) = Ok g
+  end.
+
+Definition answer_fresh (env : senv) (rq : request) (a : outcome (list result)) : Prop :=
+  match a with
+  | Ok rs => forall i r, nth_error rs i = Some r -> result_fresh env rq i r
+  | Abort c => exists k, In k (req_points rq) /\ fresh_function env k = Abort c
+  | Raise _ => True
+  end.
 
 (* ---- acceptance of an observed request sequence ------------------------------------------------------------- *)
 Inductive via := ViaCalculate | ViaStep (allow_nan : bool) | ViaEvalStep.
@@ -783,29 +828,37 @@ Definition result_ok (env : senv) (S : Q) (pt : point) (obs model : result) : bo
   | _, _ => false
   end.
 
-Definition results_ok (env : senv) (S : Q) (k : nat) (obs model : list result) : bool :=
-  match nth_error (s_points env) k with
-  | Some pt => forallb2 (result_ok env S pt) obs model
-  | None => false
+Fixpoint results_ok_from (env : senv) (S : Q) (rq : request) (i : nat) (obs model : list result) : bool :=
+  match obs, model with
+  | [], [] => true
+  | o :: ot, m :: mt =>
+      match nth_error (s_points env) (result_point rq i) with
+      | Some pt => result_ok env S pt o m
+      | None => false
+      end && results_ok_from env S rq (Datatypes.S i) ot mt
+  | _, _ => false
   end.
 
-Definition answer_ok (env : senv) (S : Q) (k : nat) (obs model : outcome (list result)) : bool :=
+Definition results_ok (env : senv) (S : Q) (rq : request) (obs model : list result) : bool :=
+  results_ok_from env S rq 0 obs model.
+
+Definition answer_ok (env : senv) (S : Q) (rq : request) (obs model : outcome (list result)) : bool :=
   match obs, model with
-  | Ok a, Ok b => results_ok env S k a b
+  | Ok a, Ok b => results_ok env S rq a b
   | Abort a, Abort b => Z.eqb a b
   | Raise a, Raise b => String.eqb a b
   | _, _ => false
   end.
 
-(* the points of the requests whose results were delivered, in order *)
-Fixpoint delivered_points (env : senv) (allow_nan : bool) (ch : cache) (reqs : list request) : list nat :=
+(* the requests whose results were delivered, in order *)
+Fixpoint delivered_requests (env : senv) (allow_nan : bool) (ch : cache) (reqs : list request) : list request :=
   match reqs with
   | [] => []
   | rq :: rest =>
       let (ch', out) := calc env ch rq in
       match out with
-      | Ok rs => req_point rq :: (if existsb (result_stops env allow_nan) rs then []
-                                  else delivered_points env allow_nan ch' rest)
+      | Ok rs => rq :: (if existsb (result_stops env allow_nan) rs then []
+                        else delivered_requests env allow_nan ch' rest)
       | _ => []
       end
   end.
@@ -817,10 +870,10 @@ Definition exit_ok (obs model : outcome Z) : bool :=
   | _, _ => false
   end.
 
-Definition delivered_ok (env : senv) (S : Q) (pts : list nat) (obs model : list (list result)) : bool :=
-  Nat.eqb (length obs) (length model) && Nat.eqb (length pts) (length model) &&
-  forallb2 (fun (k : nat) (om : list result * list result) => results_ok env S k (fst om) (snd om))
-           pts (combine obs model).
+Definition delivered_ok (env : senv) (S : Q) (rqs : list request) (obs model : list (list result)) : bool :=
+  Nat.eqb (length obs) (length model) && Nat.eqb (length rqs) (length model) &&
+  forallb2 (fun (rq : request) (om : list result * list result) => results_ok env S rq (fst om) (snd om))
+           rqs (combine obs model).
 
 Definition seq_ok (c : seq_case) : bool :=
   if seq_has_ties c then true
@@ -839,7 +892,7 @@ Definition seq_ok (c : seq_case) : bool :=
             match q_answers c with
             | Ok obs =>
                 forallb2 (fun (rq : request) (om : outcome (list result) * outcome (list result)) =>
-                            answer_ok env (q_S c) (req_point rq) (fst om) (snd om))
+                            answer_ok env (q_S c) rq (fst om) (snd om))
                          (q_reqs c) (combine obs (run_direct env None (q_reqs c))) &&
                 Nat.eqb (length obs) (length (q_reqs c))
             | _ => false
@@ -847,13 +900,16 @@ Definition seq_ok (c : seq_case) : bool :=
         | ViaStep allow_nan =>
             let (d, code) := run_step env allow_nan None (q_reqs c) in
             exit_ok (q_exit c) code &&
-            delivered_ok env (q_S c) (delivered_points env allow_nan None (q_reqs c)) (q_delivered c) d
+            delivered_ok env (q_S c) (delivered_requests env allow_nan None (q_reqs c)) (q_delivered c) d
         | ViaEvalStep =>
             match q_reqs c with
-            | [ReqF k] =>
-                let (d, code) := run_evalstep env k in
-                exit_ok (q_exit c) code &&
-                delivered_ok env (q_S c) (map (fun _ => k) d) (q_delivered c) d
+            | [rq] =>
+                match rq with
+                | ReqF _ | ReqB (_ :: _) =>
+                    let (d, code) := run_evalstep env rq in
+                    exit_ok (q_exit c) code && delivered_ok env (q_S c) (map (fun _ => rq) d) (q_delivered c) d
+                | _ => false
+                end
             | _ => false
             end
         end
